@@ -639,7 +639,11 @@ func txnRandom(r *core.Run, hk int, flavour string) (Action, []Action) {
 			}
 		case x < 6:
 			if t != "tt" && rng.Intn(3) == 0 {
-				acts = append(acts, txnA([]string{"selectfn", "selectinline"}[rng.Intn(2)], t, 0, 0))
+				kind := []string{"selectfn", "selectinline"}[rng.Intn(2)]
+				if t == "f3" {
+					kind = "selectfn" // (CSV_INLINE of a table that is created and not yet committed reads a placeholder file: not specified)
+				}
+				acts = append(acts, txnA(kind, t, 0, 0))
 				break
 			}
 			acts = append(acts, txnA([]string{"selectsub", "selectagg"}[rng.Intn(2)], t, 0, 0))
